@@ -1,6 +1,7 @@
 (* Prop_C03 — operator algebra agrees with matrix algebra; advertised shapes; rejection. *)
 From Coq Require Import ZArith List Bool.
 From SV Require Import lib.Scalar lib.BigSum lib.NdArray model.Block model.Linop proofs.LinopTheory proofs.LinopAlgebra proofs.LinopStack proofs.LinopLinear proofs.LinopRetab.
+From SV Require proofs.ShapesTie.   (* shape / parameter functions of the model re-checked against the source text on every run *)
 Import ListNotations.
 Local Open Scope Z_scope.
 
